@@ -96,6 +96,7 @@ fn chain_scenario(stages: Vec<Stage>, n: usize, batch: BatchMode, cap: usize, p:
         shards: 1,
         nontrivial: n >= 2,
         unbounded: false,
+        loop_body: false,
     }
 }
 
